@@ -58,15 +58,19 @@ def _limit_decision(f, len_term, lim_term, interp_qual):
     """First decision of path f on the limit comparison -> (reached: bool | None, node, problem text | None).
     Decisions are keyed on the lengths *at entry* (the interpreter shifts ``len(self.x)`` by the appends / pops made so
     far), so a test made after a mutation is read as a statement about the pre-state."""
+    started = False
+    attr = len_term[len("len(self."):-1]
     for e in f.log:
-        if e[0] == "callout":
+        if e[0] == "callout" and started:
             break
+        if e[0] in ("decide", "listop", "fire", "write"):
+            started = True
         if e[0] != "decide":
             continue
         key, pol, node = e[2], e[3], e[1]
         if not (isinstance(key, tuple) and len(key) == 2 and isinstance(key[0], frozenset)):
             continue
-        terms = dict(key[0])
+        terms = {(len_term if k == f"len_{attr}_after_callout1" else k): v for k, v in key[0]}
         if set(terms) != {len_term, lim_term}:
             continue
         a, b, c = terms[len_term], terms[lim_term], key[1]
@@ -127,9 +131,10 @@ def check(ctx):
         rows = {}
         bounds = {}
         for fields, finals in runs:
-            W = fields["waiting"][1] > 0
-            S = fields["size"] == ("none",)
             for f in finals:
+                b = f.basis(fields)
+                W = b["waiting"][1] > 0
+                S = b["size"] == ("none",)
                 L, lnode, lbad = _limit_decision(f, "len(self.pending)", "self.size", qp)
                 if lnode is not None:
                     bounds.setdefault(ctx.construct(qp, lnode), (lbad, f))
@@ -167,7 +172,7 @@ def check(ctx):
                         ok, detail = False, "the object is delivered to a Deferred that was not taken out of `waiting`"
                     elif rec["origin"][2] != "first":
                         ok, detail = False, "the object is delivered to the newest waiting get, not the oldest"
-                if ok and actual.startswith("raise") and mutations:
+                if ok and actual.startswith("raise") and mutations and any(v != 0 for v in f.lendelta.values()):
                     ok, detail = False, ("QueueOverflow is raised after the queue was already modified"
                                     + (": the refused object stays stored in `pending` and is delivered later" if stores else ""))
                 if not ok and detail is None:
@@ -178,6 +183,9 @@ def check(ctx):
                         detail = (f"with {'a' if W else 'no'} waiting get, size {'None' if S else 'set'}"
                                   + ("" if L is None else f", limit {'reached' if L else 'not reached'}")
                                   + f": put() must {expected} but does '{actual}'")
+                if not ok and f.tainted:
+                    interp.uncertain.append(f"{qp}: after an unmodelled call the decision table cannot be decided")
+                    continue
                 prev = rows.get(key)
                 if prev is None or (prev[0] and not ok):
                     rows[key] = (ok, detail, f, node)
@@ -201,9 +209,10 @@ def check(ctx):
         rows = {}
         bounds = {}
         for fields, finals in runs:
-            P = fields["pending"][1] > 0
-            B = fields["backlog"] == ("none",)
             for f in finals:
+                b = f.basis(fields)
+                P = b["pending"][1] > 0
+                B = b["backlog"] == ("none",)
                 L, lnode, lbad = _limit_decision(f, "len(self.waiting)", "self.backlog", qg)
                 if lnode is not None:
                     bounds.setdefault(ctx.construct(qg, lnode), (lbad, f))
@@ -248,7 +257,7 @@ def check(ctx):
                 else:
                     expected = "raise QueueUnderflow" if L else "wait"
                 ok = actual == expected and detail is None
-                if ok and actual.startswith("raise") and mutations:
+                if ok and actual.startswith("raise") and mutations and any(v != 0 for v in f.lendelta.values()):
                     ok, detail = False, "QueueUnderflow is raised after the queue was already modified"
                 if not ok and detail is None:
                     if expected == "consult-limit":
@@ -258,6 +267,9 @@ def check(ctx):
                         detail = (f"with {'an' if P else 'no'} object stored, backlog {'None' if B else 'set'}"
                                   + ("" if L is None else f", limit {'reached' if L else 'not reached'}")
                                   + f": get() must {expected} but does '{actual}'")
+                if not ok and f.tainted:
+                    interp.uncertain.append(f"{qg}: after an unmodelled call the decision table cannot be decided")
+                    continue
                 key = ((P, B, L), expected)
                 prev = rows.get(key)
                 if prev is None or (prev[0] and not ok):
@@ -392,7 +404,30 @@ MUTANTS = [
     Mutant("get-queued-and-not-returned", DEFER, "            self.waiting.append(d)\n            return d\n        else:\n            raise QueueUnderflow()",
            "            return d\n        else:\n            raise QueueUnderflow()", expect_rule="get/decision-table"),
 ]
+_LOOP_PUT_OLD = '        if self.waiting:\n            self.waiting.pop(0).callback(obj)\n        elif self.size is None'
+_LOOP_PUT_NEW = ('        while self.waiting:\n            waiter = self.waiting.pop(0)\n            if not waiter.called:\n'
+                 '                waiter.callback(obj)\n                return\n        if self.size is None')
+MUTANTS += [
+    # the refused object is stored before the limit is looked at and stays there when QueueOverflow is raised
+    Mutant("store-then-refuse", DEFER, _PUT,
+           '        if self.waiting:\n            self.waiting.pop(0).callback(obj)\n            return\n        self.pending.append(obj)\n'
+           '        if self.size is not None and len(self.pending) > self.size:\n            raise QueueOverflow()\n', expect_rule="put/decision-table"),
+    # lazy cancellation: the canceller leaves the Deferred queued, put() skips fired entries - cancelled gets still count for the backlog
+    Mutant("lazy-cancellation", DEFER, _CANCEL, _CANCEL.replace("self.waiting.remove(d)", "pass"), expect_rule="cancel/removes-from-waiting",
+           more=[(DEFER, _LOOP_PUT_OLD, _LOOP_PUT_NEW)]),
+    # same early-return shape, limit off by one the other way (one object too few is accepted)
+    Mutant("store-then-refuse-early", DEFER, _PUT,
+           '        if self.waiting:\n            self.waiting.pop(0).callback(obj)\n            return\n        self.pending.append(obj)\n'
+           '        if self.size is not None and len(self.pending) >= self.size:\n            self.pending.pop()\n            raise QueueOverflow()\n',
+           expect_rule="put/size-boundary"),
+]
 SILENT = [
+    Silent("defensive-loop-over-waiters", DEFER, _LOOP_PUT_OLD, _LOOP_PUT_NEW),
+    Silent("canceller-tolerates-missing", DEFER, _CANCEL, _CANCEL.replace("        self.waiting.remove(d)\n", "        try:\n            self.waiting.remove(d)\n        except ValueError:\n            pass\n")),
+    Silent("logging-call-first", DEFER, "        if self.waiting:\n            self.waiting.pop(0).callback(obj)\n        elif",
+           '        log.debug("put")\n        if self.waiting:\n            self.waiting.pop(0).callback(obj)\n        elif'),
+    Silent("hand-out-in-try-finally", DEFER, "        if self.pending:\n            return succeed(self.pending.pop(0))",
+           "        if self.pending:\n            try:\n                return succeed(self.pending.pop(0))\n            finally:\n                pass"),
     Silent("put-early-returns", DEFER, _PUT,
            '        if self.waiting:\n            waiter = self.waiting.pop(0)\n            waiter.callback(obj)\n            return\n'
            '        if self.size is not None and len(self.pending) >= self.size:\n            raise QueueOverflow()\n        self.pending.append(obj)\n'),
